@@ -89,6 +89,12 @@ def hyperbolic_artists(tier, rng, rep):
             k[1] = -k[0] * rng.uniform(0.3, 1.0); special = "edge_through_origin"
         elif t % 6 == 0:
             k[1] = (k[0] + k[2]) / 2 + 1e-4 * rng.normal(size=2); special = "nearly_straight"
+        elif t % 7 in (1, 3):
+            # an edge lying EXACTLY on a diameter (axis-aligned, dyadic coordinates): radial or through the origin, first edge or not
+            e0, e1 = (np.array([0.25, 0.0]), np.array([0.75, 0.0])) if t % 7 == 1 else (np.array([0.0, -0.5]), np.array([0.0, 0.5]))
+            j0 = 0 if t % 2 else 1
+            k[j0], k[(j0 + 1) % m] = e0, e1
+            special = "edge_exactly_on_a_diameter"
         for model in ("poincare", "halfspace", "klein"):
             for use_tf in (False, True):
                 if use_tf:
